@@ -3,7 +3,7 @@
    (checkRangeRightBound returns the accumulated res; index bounds are never rewritten); Refuted.v shows that
    both deviations of today's code break them. *)
 From Coq Require Import ZArith List Bool Arith Sorted.
-From OG Require Import C20.Model C20.Proofs C20.Cover C20.ScanProofs C20.TwoSided.
+From OG Require Import C20.Model C20.Proofs C20.Cover C20.ScanProofs C20.TwoSided C20.NullOrder.
 Import ListNotations.
 
 (* mark_sound: CheckInRange over a hyper-rectangle never says "cannot be true" when some row of the rectangle
@@ -98,6 +98,45 @@ Theorem C20_both_strategies_sound : forall isint nonkey c rpn keys sizes nk coar
 Proof. exact both_strategies_sound. Qed.
 Print Assumptions C20_both_strategies_sound.
 
+(* ---------- null keys, data in the order of the column store's flush sort ----------
+   record.SortForColumnStore sorts a null key as the smallest value it knows for the type (the pad value: a null TIES
+   with it). writer_sorted pads keys = the keys are lexicographically sorted once every null is replaced by its column's
+   pad value. With a null index cell read as that pad value (read_index null_pad = the repaired createFieldRefFunc,
+   props/C20/fix3.patch) pruning is sound for every key list in the writer's order, nulls anywhere, any pad values. *)
+Theorem C20_may_be_sound_writer_order : forall isint nonkey c rpn keys pads sizes nk s i e row,
+  compile isint c = Some rpn ->
+  writer_sorted pads keys -> Forall (fun k => length k = nk) keys ->
+  (used_keys rpn <= nk)%nat -> (used_keys rpn <= length isint)%nat ->
+  Forall (fun z => 1 <= z)%nat sizes -> sum sizes = length keys ->
+  (s <= i)%nat -> (i < e)%nat -> (e <= length sizes)%nat ->
+  In row (frag_rows sizes keys i) -> eval_cond nonkey c row = true ->
+  may_range repaired isint rpn (read_index null_pad pads (build_index sizes keys)) s e = true.
+Proof. exact may_be_sound_writer_order. Qed.
+Print Assumptions C20_may_be_sound_writer_order.
+
+Theorem C20_scan_sound_writer_order : forall isint nonkey c rpn keys pads sizes nk coarse minmarks i,
+  compile isint c = Some rpn ->
+  writer_sorted pads keys -> Forall (fun k => length k = nk) keys ->
+  (used_keys rpn <= nk)%nat -> (used_keys rpn <= length isint)%nat ->
+  Forall (fun z => 1 <= z)%nat sizes -> sum sizes = length keys ->
+  (2 <= coarse)%nat -> (i < length sizes)%nat ->
+  frag_matches nonkey c sizes keys i ->
+  exists rs, scan repaired isint rpn (read_index null_pad pads (build_index sizes keys)) (length sizes) coarse minmarks
+             = ScanOk rs /\ covered i rs = true.
+Proof. exact scan_sound_writer_order. Qed.
+Print Assumptions C20_scan_sound_writer_order.
+
+(* padding never loses a match: a condition tree is monotone in its atoms and a null satisfies no atom *)
+Theorem C20_pad_keeps_match : forall nonkey c pads row,
+  eval_cond nonkey c row = true -> eval_cond nonkey c (padk pads row) = true.
+Proof. exact eval_cond_pad. Qed.
+Print Assumptions C20_pad_keeps_match.
+
+(* without nulls in the index the two readings of a null cell are the same reader *)
+Theorem C20_null_readings_agree_without_nulls : forall pads idx, Forall no_nulls idx ->
+  read_index null_pad pads idx = read_index null_posinf pads idx.
+Proof. exact read_index_no_nulls. Qed.
+
 (* ---------- the hypotheses are satisfiable: the refutation witnesses of Refuted.v, under the repaired model ---------- *)
 Open Scope Z_scope.
 Definition ex_keys : list key := [[Some 3; Some 2]; [Some 3; Some 5]; [Some 4; Some 0]; [Some 4; Some 1]; [Some 4; None]].
@@ -124,3 +163,21 @@ Example C20_example_scan :
   exists rpn, compile [false; true] ex_cond = Some rpn /\
     scan repaired [false; true] rpn (build_index [3%nat; 2%nat] ex_keys) 2 8 0 = ScanOk [(0, 1)%nat].
 Proof. eexists. split; [vm_compute; reflexivity|]. vm_compute. reflexivity. Qed.
+
+(* writer order with a null: the witness of finding C20-null-key-sort-order (f < 0.5 over (null)(0)(0)(1) in one
+   fragment; floats by rank: pad -MaxFloat64 = 0, 0.0 = 1, 0.5 = 2, 1.0 = 3). The hypotheses of
+   C20_scan_sound_writer_order hold and the repaired reader keeps the fragment. *)
+Definition exn_keys : list key := [[None]; [Some 1]; [Some 1]; [Some 3]].
+Example C20_example_writer_order :
+  writer_sorted [0] exn_keys /\ ~ sorted_lex exn_keys /\
+  frag_matches (fun _ => false) (CAtom 0 Clt 2) [4%nat] exn_keys 0 /\
+  exists rpn, compile [false] (CAtom 0 Clt 2) = Some rpn /\
+    scan repaired [false] rpn (read_index null_pad [0] (build_index [4%nat] exn_keys)) 1 8 0 = ScanOk [(0, 1)%nat].
+Proof.
+  split; [|split; [|split]].
+  - apply sortedb_true. vm_compute. reflexivity.
+  - intro H. inversion H as [|k r Hs Hall]; subst. inversion Hall as [|k' r' H1 _]; subst.
+    unfold key_le in H1. simpl in H1. destruct H1 as [H1 | [H1 _]]; discriminate.
+  - exists [Some 1]. split; [right; left; reflexivity | reflexivity].
+  - eexists. split; [vm_compute; reflexivity|]. vm_compute. reflexivity.
+Qed.
